@@ -128,6 +128,12 @@ def run(ctx):
             a = rng.choice('RRFFB'); k = min(left, rng.choice([0, 1, 100, 5000, rng.randrange(0, left + 1)])); left -= k; steps.append('%s%d' % (a, k))
         cfg = 1 | (4 << 8) | (rng.randrange(0, 4) << 12) | (rng.randrange(2) << 16) | (rng.choice([1, 2]) << 20)
         flines.append('flush 1 %d %d - %s %s' % (cfg, rng.randrange(1 << 20), ';'.join(steps), d.hex())); fmeta.append(d)
+    # barrier / full flush requested in a call of its own (no new input with it) after the data went in with LZMA_RUN
+    for th in range(4):
+        for act in 'BF':
+            d = xzgen.gen_data(rng, rng.choice([3000, 20000])); a_ = rng.randrange(1, len(d) // 2); b_ = rng.randrange(1, len(d) // 3)
+            cfg = 1 | (4 << 8) | (th << 12) | (rng.randrange(2) << 16) | (rng.choice([1, 2, 16]) << 20)
+            flines.append('flush 1 %d %d - R%d;%s0;R%d;%s0;%s0;R%d %s' % (cfg, rng.randrange(1 << 20), a_, act, b_, act, rng.choice('BF'), len(d) - a_ - b_, d.hex())); fmeta.append(d)
     os.environ['VERIF_SCHED_SEED'] = str(rng.randrange(1, 1 << 30))
     fouts, ff = run_lines(fl, flines)
     os.environ.pop('VERIF_SCHED_SEED', None)
